@@ -9,7 +9,12 @@ pub struct Rng(pub u64);
 
 impl Rng {
     pub fn new(seed: u64) -> Self {
-        Rng(seed.wrapping_mul(0x9E37_79B9_7F4A_7C15).wrapping_add(0x1234_5678_9ABC_DEF1))
+        // Run the seed through the output mix once: consecutive seeds must not yield
+        // one-draw-shifted copies of the same stream.
+        let mut r = Rng(seed ^ 0x1234_5678_9ABC_DEF1);
+        let a = r.next();
+        let b = r.next();
+        Rng(a ^ b.rotate_left(32))
     }
     pub fn next(&mut self) -> u64 {
         self.0 = self.0.wrapping_add(0x9E37_79B9_7F4A_7C15);
